@@ -383,6 +383,16 @@ struct Det {
     /// names seen by `lookup` lines: (name, found, seq at the time)
     stops_requested: BTreeSet<u32>,
     quiesce_failed: bool,
+    /// group -> membership id -> actor (as joined by the harness, minus explicit leaves)
+    gmembers: BTreeMap<u32, BTreeMap<u64, u32>>,
+    /// monitor failures raised while executing operations
+    mon: Vec<(String, String)>,
+}
+
+/// `queued` as the mailbox reports it (`impl Debug for Mailbox`)
+fn queued_of(m: &Mailbox<TestActor>) -> usize {
+    let d = format!("{m:?}");
+    d.split("queued: ").nth(1).and_then(|r| r.split(|c: char| !c.is_ascii_digit()).next()).and_then(|n| n.parse().ok()).unwrap_or(usize::MAX)
 }
 
 fn show_call(r: &Result<u32, CallError<Ask>>) -> String {
@@ -414,6 +424,8 @@ impl Det {
             sends: vec![],
             stops_requested: BTreeSet::new(),
             quiesce_failed: false,
+            gmembers: BTreeMap::new(),
+            mon: vec![],
         };
         d.freeze();
         d
@@ -700,12 +712,14 @@ impl Det {
                         let id = *next;
                         *next += 1;
                         ms.insert(id, pg.join(m.broker::<Msg>()));
+                        self.gmembers.entry(g).or_default().insert(id, a);
                         format!("m{id}")
                     }
                     (Some(GroupSlot::Calls(pg, ms, next)), Some(m)) => {
                         let id = *next;
                         *next += 1;
                         ms.insert(id, pg.join(m.broker::<Call<Ask, u32>>()));
+                        self.gmembers.entry(g).or_default().insert(id, a);
                         format!("m{id}")
                     }
                     _ => "nomailbox".into(),
@@ -713,6 +727,9 @@ impl Det {
             }
             ["gleave", g, m] => {
                 let (Some(g), Some(m)) = (num(g), m.parse::<u64>().ok()) else { return "bad-op".into() };
+                if let Some(gm) = self.gmembers.get_mut(&g) {
+                    gm.remove(&m);
+                }
                 match self.groups.get_mut(&g) {
                     Some(GroupSlot::Msgs(_, ms, _)) => {
                         if let Some(x) = ms.remove(&m) {
@@ -730,24 +747,32 @@ impl Det {
                 }
             }
             ["glen", g] => match num(g).and_then(|g| self.groups.get(&g)) {
-                Some(GroupSlot::Msgs(pg, ..)) => pg.len().to_string(),
-                Some(GroupSlot::Calls(pg, ..)) => pg.len().to_string(),
+                Some(GroupSlot::Msgs(pg, ..)) => catch(|| pg.len()).map(|n| n.to_string()).unwrap_or_else(|_| "panic".into()),
+                Some(GroupSlot::Calls(pg, ..)) => catch(|| pg.len()).map(|n| n.to_string()).unwrap_or_else(|_| "panic".into()),
                 None => "nogroup".into(),
             },
             ["gsend", g, id, k] => {
                 let (Some(g), Some(id)) = (num(g), num(id)) else { return "bad-op".into() };
                 match self.groups.get(&g) {
                     Some(GroupSlot::Msgs(pg, ..)) => {
+                        let pg = pg.clone();
+                        let before = self.group_snapshot(g);
+                        let len_before = catch(|| pg.len()).unwrap_or(0);
                         let r = catch(|| pg.send(Msg { id, kind: k.as_bytes()[0] }));
                         match r {
-                            Err(_) => "panic".into(),
+                            Err(e) => {
+                                self.mon.push(("C19:group-panic".into(), format!("group {g} send {id}: {e}")));
+                                "panic".into()
+                            }
                             Ok(r) => {
                                 self.sends.push((id, None, r.is_ok()));
-                                match r {
-                                    Ok(()) => "ok".into(),
-                                    Err(DeliverError::Full(_)) => "full".into(),
-                                    Err(DeliverError::Closed(_)) => "closed".into(),
-                                }
+                                let out = match r {
+                                    Ok(()) => "ok",
+                                    Err(DeliverError::Full(_)) => "full",
+                                    Err(DeliverError::Closed(_)) => "closed",
+                                };
+                                self.group_monitor(g, id, out, &before, len_before, catch(|| pg.len()).unwrap_or(0));
+                                out.into()
                             }
                         }
                     }
@@ -761,8 +786,11 @@ impl Det {
                     Some(GroupSlot::Calls(pg, ..)) => {
                         let pg = pg.clone();
                         let kind = k.as_bytes()[0];
-                        let mut fut: CallFut = Box::pin(async move { pg.call(Ask { id, kind }).await });
-                        match self.first_poll(id, None, &mut fut) {
+                        let pg2 = pg.clone();
+                        let before = self.group_snapshot(g);
+                        let len_before = catch(|| pg.len()).unwrap_or(0);
+                        let mut fut: CallFut = Box::pin(async move { pg2.call(Ask { id, kind }).await });
+                        let out = match self.first_poll(id, None, &mut fut) {
                             Some(r) => {
                                 self.calls.insert(id, CallSlot { fut: None, result: Some(r.clone()), target: None });
                                 r
@@ -771,13 +799,73 @@ impl Det {
                                 self.calls.insert(id, CallSlot { fut: Some(fut), result: None, target: None });
                                 "sent".into()
                             }
-                        }
+                        };
+                        let seen = if out == "sent" { "ok" } else { out.as_str() };
+                        let len_after = match self.groups.get(&g) {
+                            Some(GroupSlot::Calls(pg, ..)) => catch(|| pg.len()).unwrap_or(0),
+                            _ => 0,
+                        };
+                        self.group_monitor(g, id, seen, &before, len_before, len_after);
+                        out
                     }
                     Some(_) => "bad-op".into(),
                     None => "nogroup".into(),
                 }
             }
             _ => "bad-op".into(),
+        }
+    }
+
+    /// (actor, closed, queued, capacity) of every current member of group `g`, one entry per membership
+    fn group_snapshot(&self, g: u32) -> Vec<(u32, bool, usize, usize)> {
+        let mut v = vec![];
+        if let Some(ms) = self.gmembers.get(&g) {
+            for a in ms.values() {
+                if let Some(m) = self.test_mailbox(*a) {
+                    v.push((*a, m.is_closed(), queued_of(&m), m.capacity().get()));
+                }
+            }
+        }
+        v
+    }
+
+    /// Routing oracle (the worker is frozen, so the statuses cannot change during the call): the message goes
+    /// to exactly one member iff some member is open and not full, otherwise it comes back as `Full` when a
+    /// member is open (hence full) and `Closed` when none is; only closed members may be evicted.
+    fn group_monitor(&mut self, g: u32, id: u32, out: &str, before: &[(u32, bool, usize, usize)], len_before: usize, len_after: usize) {
+        let after = self.group_snapshot(g);
+        let distinct = |v: &[(u32, bool, usize, usize)]| -> BTreeMap<u32, usize> { v.iter().map(|x| (x.0, x.2)).collect() };
+        let (qb, qa) = (distinct(before), distinct(&after));
+        let grown: usize = qa.iter().map(|(a, q)| q.saturating_sub(*qb.get(a).unwrap_or(q))).sum();
+        let available = before.iter().any(|x| !x.1 && x.2 < x.3);
+        let open = before.iter().any(|x| !x.1);
+        let detail = format!("group {g} message {id} -> {out}; members before (actor, closed, queued, cap) {before:?}, len {len_before} -> {len_after}");
+        match out {
+            "ok" => {
+                if !available {
+                    self.mon.push(("C19:group-delivered-to-unavailable".into(), detail.clone()));
+                }
+                if grown != 1 {
+                    self.mon.push(("C19:group-not-exactly-one".into(), detail.clone()));
+                }
+            }
+            "full" | "closed" => {
+                if available {
+                    self.mon.push(("C19:group-handed-back-despite-available-member".into(), detail.clone()));
+                }
+                if grown != 0 {
+                    self.mon.push(("C19:group-handed-back-and-delivered".into(), detail.clone()));
+                }
+                if !available && (out == "full") != open {
+                    self.mon.push(("C19:group-error-kind".into(), detail.clone()));
+                }
+            }
+            _ => {}
+        }
+        // memberships the harness knows of that are not closed can never be evicted
+        let live = before.iter().filter(|x| !x.1).count();
+        if len_after > len_before || len_after < live {
+            self.mon.push(("C19:group-evicted-live-member".into(), detail));
         }
     }
 
@@ -842,6 +930,9 @@ fn handled_of(log: &[Obs]) -> Vec<u32> {
 
 /// teardown of a det case + the implementation-only property monitors
 fn finish_det(d: &mut Det, ex: &mut Exec) {
+    for (sig, detail) in d.mon.drain(..) {
+        ex.fail(sig, detail);
+    }
     if d.quiesce_failed {
         ex.fail("C19:harness-quiesce", "worker did not become quiescent within 10 s");
     }
@@ -1052,6 +1143,26 @@ fn finish_det(d: &mut Det, ex: &mut Exec) {
             let owners_all_exited = d.actors.iter().all(|(a, s)| s.name.as_ref() != Some(&n) || exited.contains(a) || !s.hooks[0] || !s.started);
             if owners_all_exited && d.cluster.as_ref().unwrap().lookup::<TestActor, _>(n.clone()).is_some() {
                 ex.fail("C19:name-not-released", format!("name {n} still registered after its actors exited"));
+            }
+        }
+    }
+    // a name whose holders are all gone (exited, or failed to start) can be reserved again
+    let names: BTreeSet<String> = d.actors.values().filter_map(|s| s.name.clone()).collect();
+    for n in names {
+        let all_gone = d.actors.iter().filter(|(_, s)| s.name.as_ref() == Some(&n)).all(|(a, s)| {
+            exited.contains(a) || (!s.hooks[0] && d.log.of(*a).contains(&Obs::Hook(0, false)))
+        });
+        if all_gone {
+            let log = d.log.clone();
+            let mut probe = d
+                .cluster
+                .as_ref()
+                .unwrap()
+                .spawn(move || TestActor { id: 999_999, hooks: [true; 4], log, extra: None }, ())
+                .with_name(n.clone())
+                .into_future();
+            if let Poll::Ready(Err(SpawnError::NameTaken(_))) = poll_once(Pin::new(&mut probe)) {
+                ex.fail("C19:name-not-released", format!("name {n}: every holder exited or failed to start, yet a new spawn gets NameTaken"));
             }
         }
     }
@@ -1299,8 +1410,10 @@ fn run_conc(spec: &ConcSpec) -> Vec<String> {
                         let mut fut: CallFut = Box::pin(async move { m2.call::<Ask, u32>(Ask { id, kind }).await });
                         match poll_once(fut.as_mut()) {
                             Poll::Ready(res) => {
-                                sl.sends.push((id, Some(*a), false));
-                                sl.calls.push((id, Some(*a), None, call_letter(&res)));
+                                // answered within the first poll: accepted unless Full / Closed
+                                let l = call_letter(&res);
+                                sl.sends.push((id, Some(*a), l == 'r' || l == 'n'));
+                                sl.calls.push((id, Some(*a), None, l));
                             }
                             Poll::Pending => {
                                 sl.sends.push((id, Some(*a), true));
@@ -1313,8 +1426,9 @@ fn run_conc(spec: &ConcSpec) -> Vec<String> {
                         let mut fut: CallFut = Box::pin(async move { g2.call(Ask { id, kind: b'r' }).await });
                         match poll_once(fut.as_mut()) {
                             Poll::Ready(res) => {
-                                sl.sends.push((id, None, false));
-                                sl.calls.push((id, None, None, call_letter(&res)));
+                                let l = call_letter(&res);
+                                sl.sends.push((id, None, l == 'r' || l == 'n'));
+                                sl.calls.push((id, None, None, l));
                             }
                             Poll::Pending => {
                                 sl.sends.push((id, None, true));
@@ -1947,15 +2061,85 @@ fn gen_det(rng: &mut Rng, n_ops: usize) -> Vec<String> {
     l
 }
 
+/// Differential test of the real `ProcessGroup::send` routing: groups of `n` members whose mailboxes are
+/// deliberately ok / full / closed, for every status vector and every cursor position (exhaustive up to
+/// `max_n`, sampled above), through the public API on a real (frozen) cluster.
+fn gen_routing(rng: &mut Rng, max_n: usize, samples_above: usize) -> Vec<Case> {
+    let mut combos: Vec<(Vec<u8>, usize)> = vec![];
+    for n in 1..=max_n {
+        for code in 0..3usize.pow(n as u32) {
+            let st: Vec<u8> = (0..n).map(|i| b"ofc"[(code / 3usize.pow(i as u32)) % 3]).collect();
+            for cur in 0..n {
+                combos.push((st.clone(), cur));
+            }
+        }
+    }
+    for _ in 0..samples_above {
+        let n = rng.range(max_n as u64 + 1, 6) as usize;
+        let st: Vec<u8> = (0..n).map(|_| *rng.pick(b"ofc")).collect();
+        // cursors beyond n exercise `cursor % len`
+        combos.push((st, rng.below(2 * n as u64 + 1) as usize));
+    }
+    let mut cases = vec![];
+    for (ci, chunk) in combos.chunks(40).enumerate() {
+        let mut l: Vec<String> = vec![];
+        // pool: 1,2 ok (large), 3 full (cap 1), 4 full (cap 2), 5 closed (stop requested), 6 closed (exited)
+        for (a, cap) in [(1, 4096), (2, 4096), (3, 1), (4, 2), (5, 3), (6, 3)] {
+            l.push(format!("spawn {a} - {cap} - ++++"));
+        }
+        l.push("run".into());
+        for a in 1..=6 {
+            l.push(format!("await {a}"));
+        }
+        l.push("stop 6".into());
+        l.push("run".into());
+        l.push("exit 6".into());
+        l.push("send 3 900001 n".into());
+        l.push("send 4 900002 n".into());
+        l.push("send 4 900003 n".into());
+        l.push("stop 5".into());
+        let mut msg = 1u32;
+        for (gi, (st, cur)) in chunk.iter().enumerate() {
+            let g = gi as u32 + 1;
+            l.push(format!("gnew {g} m"));
+            // advance the cursor: a lone full member rejects every send, the cursor still moves
+            if *cur > 0 {
+                l.push(format!("gjoin {g} 3"));
+                for _ in 0..*cur {
+                    l.push(format!("gsend {g} {msg} n"));
+                    msg += 1;
+                }
+                l.push(format!("gleave {g} 0"));
+            }
+            for (i, s) in st.iter().enumerate() {
+                let a = match s {
+                    b'o' => 1 + (i % 2),
+                    b'f' => 3 + (i % 2),
+                    _ => 5 + (i % 2),
+                };
+                l.push(format!("gjoin {g} {a}"));
+            }
+            for _ in 0..3 {
+                l.push(format!("gsend {g} {msg} n"));
+                msg += 1;
+                l.push(format!("glen {g}"));
+            }
+        }
+        l.push("run".into());
+        cases.push(Case { name: format!("route-{ci}"), lines: l });
+    }
+    cases
+}
+
 fn generate(tier: &str, rng: &mut Rng) -> Vec<Case> {
     let thorough = tier == "thorough";
-    let mut cases = vec![];
-    let n_det = if thorough { 6000 } else { 700 };
+    let mut cases = if thorough { gen_routing(rng, 5, 1500) } else { gen_routing(rng, 3, 200) };
+    let n_det = if thorough { 5000 } else { 500 };
     for i in 0..n_det {
         let n_ops = rng.range(6, if i % 5 == 0 { 60 } else { 30 }) as usize;
         cases.push(Case { name: format!("det-{i}"), lines: gen_det(rng, n_ops) });
     }
-    let n_conc = if thorough { 1500 } else { 120 };
+    let n_conc = if thorough { 1200 } else { 80 };
     for i in 0..n_conc {
         cases.push(gen_conc(rng, i, thorough && i % 4 == 0));
     }
